@@ -505,6 +505,29 @@ func (qi *QuotaInfo) addPodIfNotPresent(pod *v1.Pod) {
 	qi.PodCache[key] = NewPodInfo(pod)
 }
 
+// refreshPodIfPresent keeps the cached object of a pod the quota already holds current, so that whoever reads
+// it back later (migration, over-use revoke, delete) sees the amounts and labels the figures were built from.
+func (qi *QuotaInfo) refreshPodIfPresent(pod *v1.Pod) {
+	qi.lock.Lock()
+	defer qi.lock.Unlock()
+
+	if podInfo, exist := qi.PodCache[generatePodCacheKey(pod)]; exist {
+		podInfo.pod = pod
+		podInfo.resource = PodRequests(pod)
+	}
+}
+
+// getCachedPod returns the object cached for the pod, nil if the quota does not hold it.
+func (qi *QuotaInfo) getCachedPod(pod *v1.Pod) *v1.Pod {
+	qi.lock.RLock()
+	defer qi.lock.RUnlock()
+
+	if podInfo, exist := qi.PodCache[generatePodCacheKey(pod)]; exist {
+		return podInfo.pod
+	}
+	return nil
+}
+
 func (qi *QuotaInfo) removePodIfPresent(pod *v1.Pod) {
 	qi.lock.Lock()
 	defer qi.lock.Unlock()
